@@ -51,8 +51,11 @@ class JointModel(LogisticModel):
 
     def __init__(self, name: str, **kwargs):
         super().__init__(name, **kwargs)
-        self._configure_observation_models()
-        self._configure_variables_to_track()
+        # with neither a dimension nor a number of sources the event sub-model cannot be chosen yet:
+        # it is then configured when the data (hence the dimension) is known
+        if self.dimension is not None or self.source_dimension is not None:
+            self._configure_observation_models()
+            self._configure_variables_to_track()
 
     def _configure_variables_to_track(self):
         self.track_variables(["nu", "rho", "nll_attach_y", "nll_attach_event"])
@@ -267,6 +270,9 @@ class JointModel(LogisticModel):
             - If the :class:`.Dataset`'s headers do not match the model's.
         """
         super()._validate_compatibility_of_dataset(dataset)
+        if not any(obs_model.name == "event" for obs_model in self.obs_models):
+            self._configure_observation_models()
+            self._configure_variables_to_track()
         # Check that there is only one event stored
         if not set(dataset.event_bool.unique().tolist()) == set([False, True]):
             raise LeaspyInputError(
